@@ -315,3 +315,43 @@ def group_diff(fb, akeys, skeys, mods):
     only_a = sorted(sa - ss, key=str)
     only_s = sorted(ss - sa, key=str)
     return only_a, only_s, ra, rs
+
+
+# ------------------------------------------------------------------------------------------------
+# cross-crate siblings: the text-header sub-reader state machine exists in ten copies
+# ------------------------------------------------------------------------------------------------
+
+HEADER_READER_RX = re.compile(
+    r"^<noodles_\w+::(r#async::)?io::reader::header::(container::)?((sam|vcf)_header::)?Reader<R> as "
+    r"(std::io::Read|std::io::BufRead|tokio::io::async_read::AsyncRead|tokio::io::async_buf_read::AsyncBufRead)>::"
+    r"(read|fill_buf|consume|poll_read|poll_fill_buf)$")
+
+
+def header_reader_agreement(ctx, rule, scope_rx, floor):
+    """Every copy of the `Reader { inner, is_eol }` header sub-reader (SAM text in sam/bam/cram, VCF text in vcf/bcf, sync and
+    async) performs the same state updates per trait method: the multiset of constant stores into named fields must equal the
+    majority's. Reports only copies whose key matches scope_rx."""
+    fb = ctx.fb
+    fam = {}
+    for k in fb.fns:
+        m = HEADER_READER_RX.match(k)
+        if m and not fb.fns[k].is_closure:
+            meth = m.group(6).replace("poll_", "")
+            fam.setdefault(meth, []).append(k)
+    n = 0
+    rx = re.compile(scope_rx)
+    for meth, keys in sorted(fam.items()):
+        sigs = {k: frozenset((t, c) for t, c in tokens(fb, k).items() if t[0] == "store") for k in keys}
+        ref, _cnt = Counter(sigs.values()).most_common(1)[0]
+        for k in sorted(keys):
+            if not rx.search(k):
+                continue
+            n += 1
+            ctx.saw_fn(fb.fns[k])
+            if sigs[k] == ref:
+                ctx.ok(rule, k + " :: state updates as in the other %d copies" % (len(keys) - 1), str(sorted(ref)), fb.fns[k].loc())
+            else:
+                ctx.violation(rule, "%s/sibling-state-updates/%s" % (rule, k),
+                              "%s stores %s while the other copies of this header sub-reader store %s in %s(): one copy of the state "
+                              "machine was edited alone" % (k, sorted(sigs[k]), sorted(ref), meth), fb.fns[k].loc())
+    ctx.floor(rule, "header sub-reader methods in scope", n, floor)
